@@ -12,7 +12,7 @@ The contract: for sorted inputs the result is the sorted merge (same multiset: E
 EQ(right, ., v) for every v), s_1[1] grows by exactly INVS, s_2[0] by exactly EQS, nothing else changes.
 The recursion `__mergesortlike` and the per-ranking glue `__cost_by_ranking` are decided by the bounded tier.
 """
-from pyvc.types import Int, Arr, SetList
+from pyvc.types import Int, Arr, SetList, Obj, IntDict
 
 F = "corankco/kemeny_score_computation.py::KemenyComputingFactory."
 
@@ -139,6 +139,7 @@ def register(reg):
     )
     register_runs(reg)
     register_missing(reg)
+    register_score_glue(reg)
 
 
 def runs_harness(raw):
@@ -308,4 +309,65 @@ def register_missing(reg):
         int_witness={"s_2[5]": "s_2[5] + TRI(t_3[idx_consensus_i])"},
         hints={9: ["implies(idx_consensus_i < len(t_3), tri_even(t_3[idx_consensus_i]) and tri_half(t_3[idx_consensus_i]))"]},
         notes="missing-element pair counts of one input ranking (fragment: the loop over the buckets of the consensus)",
+    )
+
+
+def register_score_glue(reg):
+    """get_kemeny_score, before the counting: (1) the dict built from the candidate maps every element of the candidate to
+    the index of its bucket and has no other key; (2) one iteration of the completeness check raises the dedicated
+    exception exactly when the input ranking holds an element the dict lacks."""
+    M = "mapping_elem_consensus_id_bucket"
+
+    def mapped(upto):
+        return ("forall(lambda e, j: implies(0 <= j and j < %s and ranking[j][e], has(%s, e) and %s[e] == j))"
+                % (upto, M, M))
+
+    def only(upto, extra=""):
+        return ("forall(lambda e: implies(has(%s, e), exists(lambda j: ranking[j][e], 0, %s)%s))" % (M, upto, extra))
+
+    reg.contract(
+        F + "get_kemeny_score#mapping", props=["C01"],
+        fragment={"loop": 1, "prelude": 2},
+        params=dict(self=Obj, ranking=SetList(), dataset=Obj),
+        requires={
+            # buckets of a Ranking are pairwise disjoint (Ranking.__init__ refuses anything else)
+            "disjoint": "forall(lambda j1, j2, e: implies(0 <= j1 and j1 < j2 and j2 < len(ranking), "
+                        "not (ranking[j1][e] and ranking[j2][e])))",
+        },
+        ensures={"mapped": mapped("len(ranking)"), "only": only("len(ranking)")},
+        loops={
+            1: dict(inv={
+                "id": "id_bucket == idx_bucket_consensus",
+                "mapped": mapped("idx_bucket_consensus"),
+                "only": only("idx_bucket_consensus"),
+            }),
+            2: dict(inv={
+                "earlier": mapped("idx_bucket_consensus"),
+                "current": "forall(lambda e: implies(seen_elem_consensus[e], has(%s, e) and %s[e] == id_bucket))" % (M, M),
+                "only": only("idx_bucket_consensus", " or seen_elem_consensus[e]"),
+            }),
+        },
+        notes="candidate element -> bucket index dict of get_kemeny_score (fragment: 2 initialisations + the first loop)",
+    )
+    reg.contract(
+        F + "get_kemeny_score#refusal", props=["C01"],
+        fragment={"body_of_loop": 3},
+        params={"self": Obj, "ranking_dataset": SetList(), M: IntDict(Int)},
+        opaque_glue=True,
+        raises={
+            "InvalidRankingsForComputingDistance":
+                "exists(lambda e: exists(lambda j: ranking_dataset[j][e], 0, len(ranking_dataset)) and not has(%s, e))" % M,
+        },
+        loops={
+            4: dict(inv={
+                "complete": "forall(lambda e, j: implies(0 <= j and j < idx_bucket_ranking_dataset and ranking_dataset[j][e], "
+                            "has(%s, e)))" % M,
+            }),
+            5: dict(inv={
+                "earlier": "forall(lambda e, j: implies(0 <= j and j < idx_bucket_ranking_dataset and ranking_dataset[j][e], "
+                           "has(%s, e)))" % M,
+                "current": "forall(lambda e: implies(seen_element[e], has(%s, e)))" % M,
+            }),
+        },
+        notes="completeness check of get_kemeny_score for one input ranking (fragment: body of the loop over the dataset)",
     )
